@@ -61,14 +61,15 @@ def summarize(E):
     return [out, fin]
 
 
-def evaluate(obj, model):
+def evaluate(obj, model, cache=None):
     "replace every SymInt leaf by its value under the model"
+    from symex.core import eval_lin
+    if cache is None:
+        cache = {}
     if isinstance(obj, SymInt):
-        return model.eval(obj.e, model_completion=True).as_long()
-    if isinstance(obj, list):
-        return [evaluate(x, model) for x in obj]
-    if isinstance(obj, tuple):
-        return [evaluate(x, model) for x in obj]
+        return eval_lin(obj, model, cache)
+    if isinstance(obj, (list, tuple)):
+        return [evaluate(x, model, cache) for x in obj]
     if isinstance(obj, dict):
-        return {k: evaluate(v, model) for k, v in obj.items()}
+        return {k: evaluate(v, model, cache) for k, v in obj.items()}
     return obj
